@@ -624,6 +624,7 @@ def search(ck: Ck) -> None:
             ref_text = None
             ref_tokens = None
             ref_strip = None
+            mutated = False
             for opts in opt_list:
                 ck.count('search_serialisations')
                 text = root.serialise(**opts)
@@ -632,7 +633,8 @@ def search(ck: Ck) -> None:
                     report('serialise-to-file-differs', 'serialise(file) writes a different text than serialise()', doc, opts)
                 if identity_walk(root) != before or snapshot(root)[2] != doc:
                     report('serialise-mutates-tree', 'the tree differs after serialise()', doc, opts)
-                    before = identity_walk(root)
+                    mutated = True
+                    break       # a writer that edits the tree can make every further call more expensive
                 got = impl_parse(text)
                 diff = where_differs(doc, got[1] if got[0] == 'ok' else got)
                 if diff:
@@ -650,6 +652,8 @@ def search(ck: Ck) -> None:
                         report('indent-changes-tokens', 'token stream depends on the indentation options', doc, opts)
                     if strip_blanks_outside_quotes(text) != ref_strip:
                         report('indent-changes-non-whitespace', 'texts differ in more than blanks outside quotes', doc, opts)
+            if mutated:
+                continue
             # delivery forms, on one option set per tree
             opts = opt_list[i % len(opt_list)]
             text = root.serialise(**opts)
